@@ -8,6 +8,7 @@
 //!             | pp:<seed> | ppmut:<seed>      (preprocessor grammar: entry file + in-memory headers + its own API defines)
 //!             | syn:<seed> | synmut:<seed> | synone:<k>   (syntax-category generator, see c08_syn.rs)
 //!             | props:<seed> | propone:<k>   (property blocks / attributes / redefinitions, see c08_props.rs)
+//!             | cyc:<seed> | cycone:<k>      (valid programs whose call graph has cycles through different symbols, see c08_cyc.rs)
 //!             | hexm:<entry>|<hex>|<name>|<hex>|...                        (literal multi-file input)
 //! observe : ok:<pipelines>:<output bytes> | err:<first line of the diagnostic> | panic:<site> | died:<signal> | timeout
 //! oracle  : (the property's own) the worker process survives, `compile` returns, an `Err` renders to a non-empty
@@ -256,6 +257,20 @@ fn run_one(req: &Req) -> Res {
         }
         Err(p) => (format!("panic:{}", p), format!("FAIL:panic {}", p)),
     };
+    // the call-graph streams emit VALID programs: the unchanged compiler accepts mutual recursion, so a diagnostic is a
+    // failure too whenever the request selects something that exists (module mode, all pipelines of a program that has
+    // one, a pipeline by its name) and no command-line define interferes
+    if oracle == "ok" && obs.starts_with("err:") && (req.input.starts_with("cyc:") || req.input.starts_with("cycone:")) && req.defs.is_empty() {
+        let names = pipeline_names(&m.bytes);
+        let selected = match &req.mode {
+            Mode::NoPipeline => true,
+            Mode::All => !names.is_empty(),
+            Mode::Named(n) => names.iter().any(|x| x == n),
+        };
+        if selected {
+            oracle = format!("FAIL:valid call-graph program rejected: {}", &obs[4..]);
+        }
+    }
     if oracle == "ok" && (micros as f64) / 1000.0 > budget_ms(nbytes) {
         oracle = format!("FAIL:slow {} ms for {} bytes (budget {:.0} ms)", micros / 1000, nbytes, budget_ms(nbytes));
     }
@@ -1418,7 +1433,7 @@ pub fn run(args: &Args, out: &mut Out) {
         let n = args.n.unwrap_or(20000);
         let mut bad = 0;
         for seed in 0..n {
-            for kind in ["pp", "ppmut", "syn", "synmut", "props", "cx", "gram", "gmut", "feat", "toks", "rep", "bytes", "prog", "pmut"] {
+            for kind in ["pp", "ppmut", "syn", "synmut", "props", "cyc", "cx", "gram", "gmut", "feat", "toks", "rep", "bytes", "prog", "pmut"] {
                 let r = guard(|| materialise(&format!("{}:{}", kind, seed)).map(|m| m.bytes.len()));
                 if let Err(p) = r {
                     bad += 1;
@@ -1595,7 +1610,7 @@ pub fn run(args: &Args, out: &mut Out) {
                 }
             }
         }
-        for k in ["toks", "rep", "gram", "gmut", "feat", "prog", "pmut", "syn", "synmut", "props", "propone", "pp", "ppmut"] {
+        for k in ["toks", "rep", "gram", "gmut", "feat", "prog", "pmut", "syn", "synmut", "props", "propone", "cyc", "cycone", "pp", "ppmut"] {
             for (c, _) in SYN_NEEDLES {
                 hist.0.entry(format!("det/{}/{}", k, c)).or_insert(0);
             }
